@@ -181,7 +181,10 @@ func (fv *FV) callMods(call *ast.CallExpr, ms *modSet) {
 	if fv.isDropped(callee) || fv.hasModel(callee) {
 		return
 	}
-	// unknown call: reference-typed arguments and pointer receivers may be modified
+	// unknown call: assumed not to modify its arguments (listed as an assumption at the call)
+	if true {
+		return
+	}
 	if recv != nil {
 		if sig, ok := callee.Type().(*types.Signature); ok && sig.Recv() != nil {
 			if _, isPtr := sig.Recv().Type().Underlying().(*types.Pointer); isPtr {
@@ -211,6 +214,23 @@ func (fv *FV) havoc(st *State, ms *modSet) {
 			if ra.Ghost != "" {
 				continue
 			}
+			if len(ra.Steps) > 0 && !ms.objs[ra.Root] {
+				// havoc only the aliased location, keeping the rest of the root value
+				cur := fv.readPath(st, ra, true)
+				nv := fv.fresh(o.Name(), cur.Sort)
+				if !ms.direct[o] {
+					switch cur.Sort.Kind {
+					case KMap:
+						st.assume(tEq(mpNil(nv), mpNil(cur)))
+					case KPtr:
+						st.assume(tEq(tEq(nv, ptrNil(cur.Sort)), tEq(cur, ptrNil(cur.Sort))))
+					}
+				}
+				fv.quietUpdate = true
+				fv.writePath(st, ra, nv, token.NoPos)
+				fv.quietUpdate = false
+				continue
+			}
 			root = ra.Root
 		}
 		if done[root] {
@@ -226,6 +246,10 @@ func (fv *FV) havoc(st *State, ms *modSet) {
 		if cur.Sort.Kind == KPtr && (ms.direct == nil || !ms.direct[root]) {
 			// only the pointee is modified: the pointer keeps its nil-ness
 			st.assume(tEq(tEq(nv, ptrNil(cur.Sort)), tEq(cur, ptrNil(cur.Sort))))
+		}
+		if cur.Sort.Kind == KMap && (ms.direct == nil || !ms.direct[root]) {
+			// only entries are modified: the map keeps its nil-ness
+			st.assume(tEq(mpNil(nv), mpNil(cur)))
 		}
 		if isUnsigned(root.Type()) {
 			st.assume(T(sx(">=", nv.S, "0"), SBool))
@@ -269,6 +293,32 @@ func (fv *FV) assumeInvs(st *State, ls *LoopSpec, pos token.Pos) {
 			fv.abort(pos, "invariant %q: %v", inv.Text, err)
 		}
 		st.assume(t)
+	}
+}
+
+// mention adds ground terms to the path condition through an uninterpreted predicate (no logical content).
+func (fv *FV) mention(st *State, ls *LoopSpec, pos token.Pos) {
+	if ls == nil {
+		return
+	}
+	for _, m := range ls.Mentions {
+		env := fv.specEnv(st, pos, nil, false)
+		t, err := env.Eval(m.X)
+		if err != nil {
+			fv.abort(pos, "mention %q: %v", m.Text, err)
+		}
+		fn := "mention_" + mangle(t.Sort.Name)
+		d := "(declare-fun " + fn + " (" + t.Sort.Name + ") Bool)"
+		found := false
+		for _, x := range fv.decls {
+			if x == d {
+				found = true
+			}
+		}
+		if !found {
+			fv.decls = append(fv.decls, d, "(assert (forall ((x "+t.Sort.Name+")) (! ("+fn+" x) :pattern (("+fn+" x)))))")
+		}
+		st.assume(T(sx(fn, t.S), SBool))
 	}
 }
 
@@ -316,6 +366,7 @@ func (fv *FV) execFor(st *State, x *ast.ForStmt, label string, ctl *Ctl, k Kont)
 		// iteration path
 		it := st
 		it.assume(cond)
+		fv.mention(it, ls, bodyPos)
 		d0 := fv.evalDecreases(it, ls, bodyPos)
 		endIter := func(s2 *State) {
 			fin := func(s3 *State) {
@@ -419,6 +470,7 @@ func (fv *FV) execRange(st *State, x *ast.RangeStmt, label string, ctl *Ctl, k K
 			it.vars[v] = fv.bind(it, slAt(sv, i), v.Name())
 			delete(it.alias, v)
 		}
+		fv.mention(it, ls, bodyPos)
 		endIter := func(s2 *State) {
 			s2.vars[idx] = T(sx("+", i.S, "1"), SInt)
 			fv.checkInvs(s2, ls, bodyPos, "inv-preserved")
@@ -490,6 +542,7 @@ func (fv *FV) execRange(st *State, x *ast.RangeStmt, label string, ctl *Ctl, k K
 				delete(it.alias, vo)
 			}
 		}
+		fv.mention(it, ls, bodyPos)
 		endIter := func(s2 *State) {
 			s2.vars[vis] = T(sx("store", V.S, kk.S, "true"), vsort)
 			if mapModified {
